@@ -197,7 +197,7 @@ func runC17(r *engine.Run) {
 		r.HarnessError("%v", err)
 		return
 	}
-	r.Rule = "E1. Frequency: decode(encode(f)) = f for (quick) every multiple of 100 Hz in 100..1000 MHz and 2.4..2.5 GHz plus every Hz of twenty 10 kHz windows, (thorough) every Hz value 0..2^32; Percentage: every integer -1000..1000; HEXBytes: lengths 0..40 x 3 fillers x {plain, 0x-prefixed, upper case}; ISO8601Time: every second of four days (years 1, 1970, 2038, 9999) x zone {Z, +05:30, -08:00}; each of the 20 payload structs and the 13 building-block structs with every subset of its optional (pointer / omitempty) fields present (up to 2^10 subsets) x 3 value variants, compared field by field after json.Marshal/json.Unmarshal. Key envelopes: KEK length {16,24,32} x KEK(2) x key(3) x label {'', 'lbl'}: blob equals an independent RFC 3394 wrap, Unwrap returns the key, every single-bit flip of the blob (192), wrong KEK and truncated/extended blobs: Unwrap succeeds iff the independent integrity check passes. Non-trivial: a value that was encoded, decoded and compared."
+	r.Rule = "E1. Frequency: decode(encode(f)) = f for (quick) every multiple of 100 Hz in 100..1000 MHz and 2.4..2.5 GHz plus every Hz of twenty 10 kHz windows, (thorough) every Hz value 0..2^32; Percentage: every integer -1000..1000; HEXBytes: lengths 0..600 and 1 KiB..64 KiB x 3 fillers x {plain, 0x-prefixed, upper case}; ISO8601Time: every second of four days (years 1, 1970, 2038, 9999) x zone {Z, +05:30, -08:00}; each of the 20 payload structs and the 13 building-block structs with every subset of its optional (pointer / omitempty) fields present (up to 2^10 subsets) x 3 value variants, compared field by field after json.Marshal/json.Unmarshal. Key envelopes: KEK length {16,24,32} x KEK(2) x key(3) x label {'', 'lbl'}: blob equals an independent RFC 3394 wrap, Unwrap returns the key, every single-bit flip of the blob (192), wrong KEK and truncated/extended blobs: Unwrap succeeds iff the independent integrity check passes. Non-trivial: a value that was encoded, decoded and compared."
 	c17History(r)
 	r.Assume("encoding/json and strconv are trusted; RFC 3394 is re-implemented in mc/spec/crypto.go and self-tested on the RFC vectors")
 
@@ -268,9 +268,16 @@ func runC17(r *engine.Run) {
 	})
 
 	// ---- HEXBytes
-	r.PartDims("hexbytes", []string{"length:0..40", "filler:3"}, 41*3, func(c *engine.Case) {
-		n := int(c.Index % 41)
-		b := fillBytes(n, []byte{0x00, 0x5A, 0xFF}[c.Index/41])
+	hexLens := 600 // every length up to twice the largest frame, then powers of two up to 64 KiB
+	hexLen := func(i int) int {
+		if i <= hexLens {
+			return i
+		}
+		return 1024 << uint(i-hexLens-1)
+	}
+	r.PartDims("hexbytes", []string{"length:0..600 and 1024..65536 (powers of two)", "filler:3"}, uint64(hexLens+1+7)*3, func(c *engine.Case) {
+		n := hexLen(int(c.Index % uint64(hexLens+1+7)))
+		b := fillBytes(n, []byte{0x00, 0x5A, 0xFF}[c.Index/uint64(hexLens+1+7)])
 		c.NonTrivial()
 		h := backend.HEXBytes(b)
 		j, err := json.Marshal(h)
@@ -495,6 +502,36 @@ func runC17(r *engine.Run) {
 		agree("length 8 (bare integrity check value)", bytes.Repeat([]byte{0xA6}, 8), kek)
 		c.Outcome("keyenvelope/wrapped")
 	})
+
+	{
+		n := manyHistoryN(r)
+		r.Rule += fmt.Sprintf(" Many-KEKs history: %d steps, each a wrap + unwrap under a KEK (16 / 32 bytes alternating) not used before in the process, returning to earlier KEKs every 64th step; the blob equals the independent RFC 3394 wrap.", n)
+		r.PartWorkers("keyenvelope/many-keks", []string{fmt.Sprintf("distinct KEKs:%d", n)}, 1, 1, func(c *engine.Case) {
+			ok := manyHistoryRun(n, func(i int) bool {
+				c.Eval()
+				kek := manyKey(i)
+				if i%2 == 1 {
+					kek = append(kek, manyKey(i+1<<21)...)
+				}
+				key := manyKey(i + 1<<22)
+				env, err := backend.NewKeyEnvelope("lbl", kek, keyOf(key))
+				if want := spec.KeyWrap(kek, key); err != nil || !bytes.Equal(env.AESKey, want) {
+					c.Fail("keyenvelope/many-keks/blob", fmt.Sprintf("KEK number %d (%x): blob %x (err %v), RFC 3394 %x", i, kek, []byte(env.AESKey), err, want), nil)
+					return false
+				}
+				got, err := env.Unwrap(kek)
+				if err != nil || !bytes.Equal(got[:], key) {
+					c.Fail("keyenvelope/many-keks/unwrap", fmt.Sprintf("KEK number %d (%x): Unwrap = %x err %v, wrapped key %x", i, kek, got[:], err, key), nil)
+					return false
+				}
+				return true
+			})
+			if ok {
+				c.NonTrivial()
+				c.Outcome("many-keys/history-completed")
+			}
+		})
+	}
 
 	if !r.Replay {
 		r.Guard(r.OutcomeCount("keyenvelope/clear") > 0 && r.OutcomeCount("keyenvelope/wrapped") > 0 && r.OutcomeCount("keyenvelope/unwrap-rejected") > 0, "clear and wrapped envelopes and rejected blobs observed")
